@@ -32,7 +32,7 @@ ASSUMPTIONS = [
     "domain: matrices with >=2 rows and >=2 columns; square inputs (same row and column dims) with local dims in {1,2,3}; "
     "inputs whose row and column dims differ only with every local dimension >= 2; realignment local dims >= 2",
     "shapes bounded: n<=3 subsystems + {1,2}^4 (quick) / n<=4 over {1,2,3} (thorough); rectangular dims in {2,3}^n, n<=3, "
-    "plus {2,3,4}^2 pairs in thorough; realignment (r1,r2,c1,c2) in {2,3}^4 (quick) / {2,3,4}^4 (thorough)",
+    "plus {2,3,4}^2 pairs in thorough; realignment (r1,r2,c1,c2) in {2,3,4}^4 (quick) / {2,3,4,5}^4 (thorough)",
     "a single subsystem is only expressible with a flat dim (a 2x1 dim array is documented as a flat vector), so "
     "rectangular single-subsystem inputs are not enumerated; scalar dim for partial_transpose is not a documented form",
     "cvxpy: Variable(real | complex=True | hermitian=True) with .value set; '.value' of the returned expression compared "
@@ -177,10 +177,17 @@ def pt_index_check(case):
     S = S_of(case)
     X = lb.labelled(ti.prod(rd), ti.prod(cd), case["entries"])
     ord_, ocd, exp = pt_expected(X, rd, cd, S)
-    got, exc = run_ptr(X.copy(), case["sysform"], case["sys"], pt_dim_arg(rd, cd, case["dimform"]))
+    dim_arg = pt_dim_arg(rd, cd, case["dimform"])
+    dim_snap = None if dim_arg is None else np.asarray(dim_arg).tolist()
+    x_arg = X.copy()
+    got, exc = run_ptr(x_arg, case["sysform"], case["sys"], dim_arg)
     if exc is not None:
         return viol("partial_transpose raised on an in-domain configuration: " + exc_text(exc), site=PT + ":exception:" + case["dimform"],
                     observed=exc_text(exc))
+    # argument aliasing (coordinator addendum): the caller's dim / input must be left as they were
+    if (dim_arg is not None and np.asarray(dim_arg).tolist() != dim_snap) or not lb.same_cells(x_arg, X):
+        return viol("partial_transpose modified the caller's dim or input array", site=PT + ":aliasing",
+                    observed=None if dim_arg is None else np.asarray(dim_arg).tolist(), expected=dim_snap)
     g = np.asarray(got)
     if g.shape != (ti.prod(ord_), ti.prod(ocd)):
         return viol(f"output shape {g.shape}, expected {(ti.prod(ord_), ti.prod(ocd))} (row dims become the column dims on S)",
@@ -292,8 +299,8 @@ def pt_cvx_cases(tier, seed):
             continue
         for sform, s, S in sys_alphabet(len(rd)):
             for dform in pt_dim_forms(rd, rd):
-                if tier == "quick" and (sform == "ndarray" or dform.endswith("_nd")):
-                    continue  # the Variable branch forwards sys/dim unchanged; ndarray forms are in C03.pt_index and in thorough
+                if (tier == "quick" or len(rd) >= 4) and (sform == "ndarray" or dform.endswith("_nd")):
+                    continue  # the Variable branch forwards sys/dim unchanged; ndarray forms: C03.pt_index, and here in thorough for n<=3
                 for kind in ("real", "complex", "hermitian"):
                     yield {"rdims": rd, "cdims": rd, "sysform": sform, "sys": s, "dimform": dform, "var": kind}
     for rd, cd in rect_dims(tier):
@@ -340,7 +347,7 @@ def pt_cvx_check(case):
 
 # ------------------------------------------------------------------------------------------------ C03.realign_index
 def realign_shapes(tier):
-    alpha = (2, 3) if tier == "quick" else (2, 3, 4)
+    alpha = (2, 3, 4) if tier == "quick" else (2, 3, 4, 5)
     return [list(t) for t in itertools.product(alpha, repeat=4)]
 
 
